@@ -260,6 +260,20 @@ pub fn phase_sweep_script(rng: &mut Rng, i: u64, prop: &str) -> Script {
     s
 }
 
+/// Deterministic family on a short input: a flush (or a bare call boundary) after every input position.
+pub fn flush_sweep(rng: &mut Rng, s: &mut Script, flushes: &[i64]) {
+    let n = rng.range(0, 260);
+    let cls = rng.pick(&[0u64, 1, 2, 3, 5, 8]);
+    let plain = gen::segment(rng, cls, n, &[]);
+    s.set("flush_sweep", flushes[rng.usize_below(flushes.len())]);
+    s.set("sweep_grant", rng.pick(&[1i64 << 20, 1 << 20, 1, 2, 5, 9, 64]));
+    s.set("sweep_second", rng.pick(&[0i64, 0, 4, 2]));
+    s.set("tail_out", rng.pick(&[4096i64, 4096, 1, 7]));
+    s.set("putfail", 0);
+    s.ops.clear();
+    s.set_blob("plain", plain);
+}
+
 pub fn gen_c02(rng: &mut Rng, i: u64, tier: Tier) -> Script {
     if i < PHASE_SCRIPTS {
         return phase_sweep_script(rng, i, "C02");
@@ -267,6 +281,10 @@ pub fn gen_c02(rng: &mut Rng, i: u64, tier: Tier) -> Script {
     let mut s = Script::new("C02", "pipe");
     base_cfg(rng, &mut s, true);
     s.set("clauses", PC_C02 | PC_C16);
+    if rng.chance(1, 60) {
+        flush_sweep(rng, &mut s, &[1, 2, 3, 5, 6, 7, 8, 8]);
+        return s;
+    }
     if rng.chance(1, 25) {
         let plain = boundary_family(rng, &mut s);
         s.set_blob("plain", plain);
@@ -330,6 +348,11 @@ pub fn gen_c12(rng: &mut Rng, _i: u64, tier: Tier) -> Script {
     let mut s = Script::new("C12", "pipe");
     base_cfg(rng, &mut s, true);
     s.set("clauses", PC_C12);
+    if rng.chance(1, 60) {
+        flush_sweep(rng, &mut s, &[1, 2, 3]);
+        s.set("sweep_grant", 1 << 20);
+        return s;
+    }
     if rng.chance(1, 25) {
         let plain = boundary_family(rng, &mut s);
         s.set_blob("plain", plain);
